@@ -11,7 +11,7 @@ from . import common, hg, obscore
 from .common import log
 from .gamma import Gamma
 
-FAMS = [("ints", "int"), ("str", "int"), ("mixed", "int"), ("shift", "int"), ("mixed", "int")]
+FAMS = [("ints", "int"), ("str", "int"), ("mixed", "int"), ("numstr", "int"), ("shift", "int"), ("mixed", "int"), ("numstr", "int")]
 
 
 def observe(tag, j, g, rng, n_orient):
@@ -35,7 +35,9 @@ def observe(tag, j, g, rng, n_orient):
     ids = [e for e in S.edges if len(S._edge[e]) >= 2]
     out = []
     for oi in range(n_orient):
-        ori = {e: (0 if oi == 0 else rng.randrange(2)) for e in ids}
+        # orientations as ints, python bools or numpy bools (all are "boolean orientations")
+        conv = [int, bool, np.bool_][oi % 3]
+        ori = {e: conv(0 if oi == 0 else rng.randrange(2)) for e in ids}
         B, L, errs = [], [], []
         with warnings.catch_warnings():
             warnings.simplefilter("ignore")
@@ -84,6 +86,10 @@ def run(tier, seed_):
     with ProcessPoolExecutor(max_workers=jobs) as ex:
         for part in ex.map(_worker, [(shapes[i::jobs], i * 100000, seed_, b["orient"]) for i in range(jobs) if shapes[i::jobs]]):
             recs += part
+    # one high-degree complex: a hub joined to 130 others (entries of B^T B beyond one byte)
+    hub = {"nodes": list(range(131)), "edges": list(range(130)), "e2n": [[0, k] for k in range(1, 131)],
+           "n2e": [], "nak": [], "eak": [], "nattr": [], "eattr": [], "gattr": [], "uid": 130, "frozen": False}
+    recs += observe("hub", hub, Gamma("ints", "int"), random.Random(seed_), 2)
     log(f"[C13] {len(recs)} (complex, orientation) pairs from {len(shapes)} TLC-enumerated generator sets ({t():.0f}s)")
 
     def selftest(records, bad):
